@@ -198,8 +198,17 @@ func runC14(c *eng.Ctx) {
 			if fn.Signature.Recv() == nil || fn.Parent() != nil {
 				continue
 			}
-			for _, s := range p.SitesDirect(fn, eng.CallTo("pkg/encoding.ReleaseTSDDecoder", "pkg/encoding.ReleaseTSDEncoder")) {
-				arg := eng.CallArgs(s.Instr.(ssa.CallInstruction))[0]
+			isRelease := eng.Any(eng.CallTo("pkg/encoding.ReleaseTSDDecoder", "pkg/encoding.ReleaseTSDEncoder"), func(p *eng.Prog, in ssa.Instruction) bool {
+				cl, ok := in.(*ssa.Call)
+				if !ok || cl.Common().StaticCallee() == nil || cl.Common().StaticCallee().Name() != "Put" || !strings.Contains(cl.Common().StaticCallee().String(), "sync.Pool") {
+					return false
+				}
+				_, isGlobal := eng.Unwrap(cl.Common().Args[0]).(*ssa.Global)
+				return isGlobal // decoderPool.Put(x) written in place
+			})
+			for _, s := range p.SitesDirect(fn, isRelease) {
+				args := eng.CallArgs(s.Instr.(ssa.CallInstruction))
+				arg := args[len(args)-1]
 				if !eng.DependsOn(arg, func(x ssa.Value) bool { return x == ssa.Value(fn.Params[0]) }) {
 					continue
 				}
